@@ -74,3 +74,5 @@ def t27():
     a = sparse([[1., 2.], [3., 4.]]); x = a[[0, 0]]; x += 1.; d = np.array([[1., 2.], [3., 4.]]); y = d[[0, 0]]; y += 1.
     return f'x = sa[[0,0]]; x += 1 -> x = {x.to_array().tolist()}   numpy {y.tolist()}'
 show('sa-repeated-row-index-aliases', t27)
+show('row-count-mismatch-accepted', lambda: f"(sparse(2x1) + np.ones((3,1))).shape = {(sparse([[1.],[2.]]) + np.ones((3,1))).shape}   (numpy: ValueError, shapes (2,1) (3,1))")
+show('logical-op-with-int (array)', lambda: SLV([True, False]) & np.array([1, 0]))
